@@ -409,6 +409,7 @@ type evalCtx struct {
 	sigs  map[string]FunSig // spec functions from the prelude
 	xsigs map[string]FunSig // extra (per-evaluation) functions
 	xsyms map[string]string
+	qdepth int
 }
 
 type FunSig struct {
@@ -525,9 +526,9 @@ func (c *evalCtx) eval(n *Node) SV {
 		if b.Ty != nil {
 			switch u := b.Ty.Underlying().(type) {
 			case *types.Slice:
-				return SV{T: app("select", app("seq.arr", b.T), k.T), Ty: u.Elem()}
+				return SV{T: app("select", app("gseq.arr", b.T), k.T), Ty: u.Elem()}
 			case *types.Array:
-				return SV{T: app("select", app("seq.arr", b.T), k.T), Ty: u.Elem()}
+				return SV{T: app("select", app("gseq.arr", b.T), k.T), Ty: u.Elem()}
 			case *types.Map:
 				return SV{T: app("select", b.T, k.T), Ty: u.Elem(), Opt: true}
 			}
@@ -577,7 +578,9 @@ func (c *evalCtx) eval(n *Node) SV {
 			nb[v.Name] = SV{T: v.Name, Sort: s}
 		}
 		c.bound = nb
+		c.qdepth++
 		body := c.eval(n.Args[0])
+		c.qdepth--
 		c.bound = saved
 		r := and(rng...)
 		if n.Op == "forall" {
@@ -716,7 +719,9 @@ func (c *evalCtx) binary(n *Node) SV {
 		return SV{T: app("mod", a.T, b.T), Sort: "Int"}
 	case "++":
 		e := c.env.Enc()
-		e.GroundBytes(app("bcat", a.T, b.T))
+		if c.qdepth == 0 {
+			e.GroundBytes(app("bcat", a.T, b.T))
+		}
 		return SV{T: app("bcat", a.T, b.T), Sort: "Bytes"}
 	}
 	panic("bad op " + n.Op)
@@ -734,10 +739,10 @@ func (c *evalCtx) call(n *Node) SV {
 	case "len":
 		a := c.eval(n.Args[0])
 		if a.Ty != nil && strings.HasPrefix(e.Sort(a.Ty), "(GSeq") {
-			return SV{T: app("seq.len", a.T), Sort: "Int"}
+			return SV{T: app("gseq.len", a.T), Sort: "Int"}
 		}
 		if strings.HasPrefix(a.Sort, "(GSeq") {
-			return SV{T: app("seq.len", a.T), Sort: "Int"}
+			return SV{T: app("gseq.len", a.T), Sort: "Int"}
 		}
 		return SV{T: app("blen", a.T), Sort: "Int"}
 	case "val":
@@ -758,7 +763,7 @@ func (c *evalCtx) call(n *Node) SV {
 		return SV{T: app("Some", a.T), Ty: a.Ty, Opt: true}
 	case "arr":
 		a := c.eval(n.Args[0])
-		return SV{T: app("seq.arr", a.T)}
+		return SV{T: app("gseq.arr", a.T)}
 	case "fst", "snd":
 		a := c.eval(n.Args[0])
 		return SV{T: app(n.Name, a.T)}
@@ -785,7 +790,7 @@ func (c *evalCtx) call(n *Node) SV {
 			panic(fmt.Sprintf("spec function %s expects %d args", n.Name, len(sig.Args)))
 		}
 		t := app(n.Name, args...)
-		if sig.Ret == "Bytes" {
+		if sig.Ret == "Bytes" && c.qdepth == 0 {
 			e.GroundBytes(t)
 		}
 		return SV{T: t, Sort: sig.Ret, Ty: sig.RetT}
